@@ -516,7 +516,10 @@ type avail struct {
 
 // genChainScript: any script whose IsUnspendable status follows the simple rule.
 func genChainScript(r *core.Rand) []byte {
-	for {
+	for tries := 0; ; tries++ {
+		if tries > 50 { // never spin on a tree whose IsUnspendable changed
+			return []byte{0x51}
+		}
 		var s []byte
 		switch r.Intn(4) {
 		case 0:
